@@ -106,7 +106,7 @@ def enc_ops(ops):
     return ",".join(out)
 
 
-def model(p, ops, res):
+def model(p, ops, res, palt=None):
     """returns list of (op index, claim, expected, got) for violated claims"""
     ptype = pdig = plen = None
     dead = False
@@ -135,6 +135,8 @@ def model(p, ops, res):
                     pdig = bytes.fromhex(s.decode("latin1"))
                 except ValueError:
                     pdig = b"<non-hex accepted>"
+        elif o == "W":
+            p = palt          # the file behind the descriptor is now the other one
         elif o in ("V", "R"):
             exp = (ptype is None or ptype == p.htype) and (pdig is None or pdig == p.hdigest) and \
                   (plen is None or plen == p.header_len)
@@ -158,8 +160,9 @@ def model(p, ops, res):
 
 
 def run_hist(arg):
-    name, base, hists = arg
-    job = ["base %s" % base.hex()] + ["seq %s" % enc_ops(h) for h in hists]
+    name, base, hists = arg[:3]
+    alt = arg[3] if len(arg) > 3 else None
+    job = ["base %s" % base.hex()] + (["alt %s" % alt.hex()] if alt else []) + ["seq %s" % enc_ops(h) for h in hists]
     cs = core.drv("pin", "\n".join(job) + "\n")
     return name, [(c.done, c.status(), (c.first("P") or {}).get("res", "").split(",")) for c in cs]
 
@@ -241,11 +244,26 @@ def run(ctx):
         for l1, l2 in ((p.header_len, p.header_len + 1), (p.header_len + 1, p.header_len), (p.header_len, p.header_len)):
             hs.append([("L", l1), ("L", l2), ("R", None), ("H", None)])
             hs.append([("T", p.htype), ("L", l1), ("D", good), ("L", l2), ("R", None), ("H", None)])
+        # (b4) the file changes between validating the lead and reading it: another valid file of the same type and header
+        # length (the chunks in the other order) is put behind the descriptor - the pins are still the first file's
+        alt = None
+        if name.startswith("ref:ab:"):
+            fh = int(name[-1])
+            alt = universe.ref_file("ba", Cfg(0, b"", 0, 3, fh), ctx.seed)
+            pa_ = zckref.parse(alt)
+            if pa_.header_len == p.header_len and pa_.hdigest != p.hdigest:
+                for pre in ([("T", p.htype), ("D", good)], [("T", p.htype), ("D", good), ("L", p.header_len)], [("D", good)], [("L", p.header_len)], []):
+                    for mid in ([("V", None)], [("V", None), ("V", None)], []):
+                        hs.append(pre + mid + [("W", None), ("R", None), ("H", None)])
+                        hs.append(pre + mid + [("W", None), ("V", None), ("R", None), ("H", None)])
+            else:
+                alt = None
         for ch in core.chunks(hs, 600):
-            hargs.append((name, b, ch))
+            hargs.append((name, b, ch, alt))
     bmap = dict(bs)
-    for (name, outs), (n2, b, hs) in zip(core.pmap(run_hist, hargs), hargs):
+    for (name, outs), (n2, b, hs, alt) in zip(core.pmap(run_hist, hargs), hargs):
         p = zckref.parse(b)
+        palt = zckref.parse(alt) if alt else None
         for h, (done, st, res) in zip(hs, outs):
             ctx.states += 1; ctx.transitions += len(h); ctx.evaluations += 1
             if not done or len(res) != len(h):
@@ -256,11 +274,11 @@ def run(ctx):
             if acc >= 2:
                 ctx.nontrivial += 1
             ctx.outcomes.add(tuple(r for (o, v), r in zip(h, res) if o in "VRH"))
-            for i, claim, exp, got in model(p, h, res):
+            for i, claim, exp, got in model(p, h, res, palt):
                 ctx.violation({"check": "C07", "predicate": claim},
                               "%s: history %s: op %d (%s): expected %s, library said %s (results %s)" % (
                                   name, describe(h), i, h[i][0], exp, got, ",".join(res)),
-                              {"kind": "hist", "base": b.hex(), "ops": [[o, v] for o, v in h]})
+                              {"kind": "hist", "base": b.hex(), "ops": [[o, v] for o, v in h], "alt": alt.hex() if alt else None})
     ctx.sample({"history": describe(hargs[0][2][len(hargs[0][2]) // 2]), "base": hargs[0][0]})
     # (c) header substitutions under full pinning
     sargs = [(n, b, late) for n, b in bs[:2 if not thorough else len(bs)] for late in (0, 1)]
@@ -339,11 +357,12 @@ def replay(case, quiet=True):
     p = zckref.parse(base)
     if case["kind"] == "hist":
         h = [(o, tuple(v) if isinstance(v, list) else v) for o, v in case["ops"]]
-        name, outs = run_hist(("replay", base, [h]))
+        alt = bytes.fromhex(case["alt"]) if case.get("alt") else None
+        name, outs = run_hist(("replay", base, [h], alt))
         done, st, res = outs[0]
         if not done or len(res) != len(h):
             return {"violated": True, "detail": st}
-        bad = model(p, h, res)
+        bad = model(p, h, res, zckref.parse(alt) if alt else None)
         return {"violated": bool(bad), "detail": {"results": res, "claims": bad}}
     if case["kind"] == "dsub":
         cs = core.drv("pin", "base %s\ndsub type=%d digest=%s pos=%d\n" % (base.hex(), case["type"], case["good"].encode().hex(), case["pos"]))
